@@ -144,6 +144,36 @@ seed("C15-1", "C15", "mpf2float shifts out all mantissa bits below the leading 2
 seed("C15-2", "C15", "vectorize_with_mpmath: an unspecified flush_subnormals (truthy sentinel) reaches mpf2float as 'flush'",
      "a function evaluated through the backend without a flush_subnormals argument and a subnormal result", "C15 quick: backend-subnormal-result (flush: unspecified / False / True are all driven)")
 
+# ---- second round: agents were additionally told which changes had already been made and given a list of untried areas
+seed("C04-r2-1", "C04", "nested-select flattening: the 'a is y' template no longer negates cond1", "select(c, select(c1, Y, b), Y) with the same object Y and values where c holds, c1 differs", "C04 quick: program:float:whole:*, step:exact:select")
+seed("C04-r2-2", "C04", "logical_and absorption x and (a and b) returns x when x is a or b", "c1 and (c1 and c2) with c1 true and c2 false", "C04 quick: step:exact:logical_and")
+seed("C04-r2-3", "C04", "relational table rows (nonnegative, nonpositive) / (nonpositive, nonnegative): == False, != True", "abs(x) == -abs(y) style comparisons with both sides zero", "C04 quick: step / program monitors (all-zero structured assignment)")
+seed("C05-r2-1", "C05", "Python target negative printed as -{0} without parentheses", "negative of an inline add / subtract / select, Python target", "C05 quick: python:value-differs")
+seed("C05-r2-2", "C05", "C++ expm1 printed unqualified (resolves to ::expm1(double) for float)", "float32 graphs containing expm1: 1 ulp differences", "C05 quick: cpp:value-differs:float32 (libm reference follows the C++ overload actually selected for std::)")
+seed("C05-r2-3", "C05", "NumPy minimum printed as min({1}, {0})", "operands that tie (+0 / -0) or exactly one NaN",
+     "C05 quick: numpy:value-differs",
+     first_result="missed (HELD): results of graphs containing maximum / minimum were exempted whenever an input was zero, NaN or two inputs had equal magnitude (an exemption written when the reference semantics looked ambiguous)",
+     strengthened="the exemption is retired: the reference interpreters implement exactly the primitive each target prints (Python's builtin max/min, std::max/std::min) in the printed operand order")
+seed("C11-r2-1", "C11", "is_power_of_two default constants derived from nmant instead of the precision (the 1-or-3 predicate's constants)", "x = +-3 * 2^k with the default Q, P", "C11 quick: is_power_of_two (default variant)")
+seed("C11-r2-2", "C11", "fma a9: the possibly_zero_z guard tests sh == 0 instead of z == 0", "algorithm a9, possibly_zero_z=True, z == -RN(x*y) exactly with an inexact product", "C11 quick: fma_real-bound:a9:fo=0:pz=1")
+seed("C11-r2-3", "C11", "apmath.py copy of fma a8 returns sh instead of zh in one select arm", "exact remainder chains under cancellation (short significands); only the traced apmath.fma copy", "C11 quick: apmath.fma-bound:a8")
+seed("C12-r2-1", "C12", "add_2sum overflow guard >= (the same edit as C10-2, judged here through renormalize(fix_overflow=True))", "fix_overflow=True and a partial sum exactly +-largest",
+     "C12 quick: renormalize-sum:eager|functional", first_result="missed (HELD): no call passed fix_overflow=True",
+     strengthened="renormalize(fix_overflow=True) on one-signed lists with a head at exactly +-largest (the only region where no 2Sum intermediate can overflow) and on lists far below largest")
+seed("C12-r2-2", "C12", "subtract negates seq2[:size]", "a size limit smaller than the subtrahend whose dropped terms matter (cancelling heads, leading zeros)",
+     "C12 quick: subtract-size-limit-changes-result-with-nothing-to-truncate", first_result="missed (HELD): add / subtract / multiply / square were never called with size=",
+     strengthened="for all four operations: a limit >= the number of non-zero items of the unlimited result must reproduce the unlimited result's exact sum; operands include leading zeros and head cancellation")
+seed("C12-r2-3", "C12", "multiply breaks out of the order loop once n > size", "operands with leading zeros or head cancellation and a size limit",
+     "C12 quick: multiply-size-limit-changes-result-with-nothing-to-truncate", first_result="missed (HELD): see C12-r2-2", strengthened="see C12-r2-2")
+seed("C13-r2-1", "C13", "float2expansion subtracts the word without converting it to the input's type", "a Python float input with float16 / float32 words",
+     "C13 quick: expansion-route-value:float2expansion / number2expansion", first_result="missed (HELD): only mpf2expansion was driven, and only with NumPy scalars",
+     strengthened="float2expansion, fraction2expansion and number2expansion (float, Python float, Fraction, mpf inputs) for every word dtype")
+seed("C13-r2-2", "C13", "float2bin counts leading zeros of subnormals through int(math.log2(...))", "19 float64 subnormals per sign with fraction fields 2^k - d (k = 49..52)", "C13 quick: bin-roundtrip (neighbours of the largest subnormal are in the structured values)")
+seed("C13-r2-3", "C13", "multiword2mpf sums under workprec(len * precision)", "words that skip zero bits so that n words span more than n*p bits", "C13 quick: multiword-roundtrip")
+seed("C16-r2-1", "C16", "taylorat skips zero coefficients without advancing the power of z0", "a zero coefficient below a non-zero one and z0 != 1", "C16 quick: taylorat sites")
+seed("C16-r2-2", "C16", "derivative(P, n) uses math.comb(i, n) instead of the falling factorial", "n >= 2", "C16 quick: derivative sites")
+seed("C16-r2-3", "C16", "fpa.fast_polynomial 'evaluate as it is' branch drops the top coefficient", "scheme=estrin_dac_scheme in the floating_point_algorithms copy", "C16 quick: fpa.fast_polynomial-value")
+
 for id_, meta in T.items():
     d = os.path.join(ROOT, id_)
     if not os.path.isdir(d):
